@@ -176,9 +176,7 @@ func c14CloseAtomic(c *Ctx) {
 			// no unlock between a life-cycle update and the close
 			var updates []ssa.Instruction
 			for _, f := range []*types.Var{fRef, fDes} {
-				for _, st := range storesToField(fn, f) {
-					updates = append(updates, st)
-				}
+				updates = append(updates, flagUpdates(fn, f)...)
 			}
 			split := false
 			for _, u := range callInstrs(fn) {
